@@ -6,7 +6,10 @@ package c18
 // anyone may execute; reflect: only its owner may, and it dispatches a nested execute) and then
 // runs a list of steps:
 //
-//	params  x/devgas MsgUpdateParams through the msg router with the gov authority
+//	params  x/devgas MsgUpdateParams through the msg router with the gov authority (any value: every valid corner —
+//	        disabled with share 0 and no denom list, enabled with share 0 / 1, empty vs explicit vs repeated
+//	        AllowedDenoms — and invalid ones: share < 0, > 1, nil)
+//	genesis the x/devgas module's InitGenesis (AppModule.InitGenesis on the JSON genesis state) with these params
 //	admin   wasm admin change of a contract (gov-permissioned keeper: environment op)
 //	block   EndBlock/Commit + BeginBlock (distribution sweeps the fee collector)
 //	tx      a signed Cosmos tx through the real DeliverTx: fee coins + messages
@@ -41,6 +44,7 @@ import (
 	abci "github.com/cometbft/cometbft/abci/types"
 	"github.com/cosmos/cosmos-sdk/crypto/keys/secp256k1"
 	sdk "github.com/cosmos/cosmos-sdk/types"
+	"github.com/cosmos/cosmos-sdk/types/module"
 	authtypes "github.com/cosmos/cosmos-sdk/x/auth/types"
 	"github.com/cosmos/cosmos-sdk/x/authz"
 	banktypes "github.com/cosmos/cosmos-sdk/x/bank/types"
@@ -49,6 +53,7 @@ import (
 
 	. "verifharness/hx"
 
+	devgas "github.com/NibiruChain/nibiru/v2/x/devgas/v1"
 	devgastypes "github.com/NibiruChain/nibiru/v2/x/devgas/v1/types"
 )
 
@@ -85,9 +90,9 @@ type c18Msg struct {
 }
 
 type c18Step struct {
-	Op      string      `json:"op"` // params | admin | block | tx
+	Op      string      `json:"op"` // params | genesis | admin | block | tx
 	Enabled bool        `json:"enabled,omitempty"`
-	Share   string      `json:"share,omitempty"`   // raw LegacyDec integer (value * 10^18)
+	Share   string      `json:"share,omitempty"`   // raw LegacyDec integer (value * 10^18); "nil": the nil Dec
 	Allowed []int       `json:"allowed,omitempty"` // denom ids (may repeat)
 	C       int         `json:"c,omitempty"`
 	Admin   int         `json:"admin,omitempty"`
@@ -364,16 +369,34 @@ func (w *c18World) runCase(cs c18Case) c18Obs {
 	for _, st := range cs.Steps {
 		so := c18StepObs{}
 		switch st.Op {
-		case "params":
+		case "params", "genesis":
 			share := sdkmath.LegacyNewDecFromBigIntWithPrec(mustBig(st.Share), 18)
+			if st.Share == "nil" {
+				share = sdkmath.LegacyDec{}
+			}
 			var allowed []string
 			for _, d := range st.Allowed {
 				allowed = append(allowed, c18Denoms[((d%len(c18Denoms))+len(c18Denoms))%len(c18Denoms)])
 			}
-			msg := &devgastypes.MsgUpdateParams{Authority: w.govAddr.String(),
-				Params: devgastypes.ModuleParams{EnableFeeShare: st.Enabled, DeveloperShares: share, AllowedDenoms: allowed}}
-			_, err := c.App.MsgServiceRouter().Handler(msg)(c.Ctx(), msg)
-			so.Ok = err == nil
+			params := devgastypes.ModuleParams{EnableFeeShare: st.Enabled, DeveloperShares: share, AllowedDenoms: allowed}
+			if st.Op == "params" {
+				msg := &devgastypes.MsgUpdateParams{Authority: w.govAddr.String(), Params: params}
+				_, err := c.App.MsgServiceRouter().Handler(msg)(c.Ctx(), msg)
+				so.Ok = err == nil
+			} else {
+				// the module's own InitGenesis on the JSON genesis state (params only: the registry is left alone);
+				// an invalid genesis panics before anything is written
+				gs := devgastypes.GenesisState{Params: params}
+				so.Ok = Recover(func() {
+					if st.Share == "nil" {
+						devgas.InitGenesis(c.Ctx(), c.App.DevGasKeeper, gs)
+						return
+					}
+					bz := c.App.AppCodec().MustMarshalJSON(&gs)
+					mod := c.App.ModuleManager.Modules[devgastypes.ModuleName].(module.HasGenesis)
+					mod.InitGenesis(c.Ctx(), c.App.AppCodec(), bz)
+				}) == ""
+			}
 		case "admin":
 			var err error
 			if st.Admin >= 0 {
@@ -456,7 +479,7 @@ func mustBig(s string) *big.Int {
 }
 
 func TestC18(t *testing.T) {
-	cfg := LoadCfg(t, 200, 3000)
+	cfg := LoadCfg(t, 300, 4000)
 	em := NewEmitter(t, cfg.Out)
 	defer em.Close()
 	var w *c18World
